@@ -867,10 +867,11 @@ func (m *InterfaceManager) undoDisconnect(task *state.Task, _ *tomb.Tomb) error 
 	plug := m.repo.Plug(connRef.PlugRef.Snap, connRef.PlugRef.Name)
 	slot := m.repo.Slot(connRef.SlotRef.Snap, connRef.SlotRef.Name)
 
-	if forget && (plug == nil || slot == nil) {
-		// we were trying to forget an inactive connection that was
-		// referring to a non-existing plug or slot; just restore it
-		// in the conns state but do not reconnect via repository.
+	if forget && (plug == nil || slot == nil || oldconn.Undesired || oldconn.HotplugGone) {
+		// we were trying to forget an inactive connection (one that
+		// was referring to a non-existing plug or slot, was undesired
+		// or of a gone hotplug device); just restore it in the conns
+		// state but do not reconnect via repository.
 		conns[connRef.ID()] = &oldconn
 		setConns(st, conns)
 		return nil
